@@ -40,8 +40,9 @@ class InputGen:
         loop_decl: List[str] = []
         handlers: List[str] = []
         features = set()
-        for i in range(r.choice([0, 1, 1, 2])):
-            pin = pins.pop()
+        for i in range(r.choice([0, 1, 1, 2, 2, 3])):
+            # two Button objects may watch the same pin: each is sampled and edge-detected on its own
+            pin = buttons[-1]["pin"] if buttons and r.random() < 0.3 else pins.pop()
             cb = r.random() < 0.7
             in_loop = "button_loop_decl" not in self.avoid and r.random() < 0.25
             if in_loop:
@@ -335,9 +336,10 @@ class E4Inputs(Engine):
             first_user = next((i for i, (kind, rest, _t) in enumerate(evs) if (kind == "SER" and not rest.partition(" ")[2].startswith("C")) or kind in ("AR", "PULSEIN", "DLY")), len(evs))
             for b in buttons:
                 reads = [i for i, (kind, rest, _t) in enumerate(evs) if kind == "DR" and int(rest.split()[0]) == b["pin"]]
-                if len(reads) != 1:
-                    return ("button-sampling", f"pass {k}: button on pin {b['pin']} sampled {len(reads)} times")
-                if reads[0] > first_user:
+                sharing = sum(1 for o in buttons if o["pin"] == b["pin"])
+                if len(reads) != sharing:
+                    return ("button-sampling", f"pass {k}: {sharing} button(s) on pin {b['pin']} sampled {len(reads)} times")
+                if reads[-1] > first_user:
                     return ("button-sampling", f"pass {k}: button on pin {b['pin']} sampled after user code started")
             n_reads = {}
             for op in case["body"]:
